@@ -1,5 +1,12 @@
 """Drivers for C09: run operation sequences on the real ReplayBuffer / MultiAgentReplayBuffer with
-identified data and record one event per public call carrying the projected post-state."""
+identified data and record one event per public call carrying the projected post-state.
+
+Dimensions varied besides the operation sequence (all derived deterministically from `seed` / `opts`, see DEFAULTS):
+observation kind (codec kinds + "scalar", "dscalar": members of rank 0, the code's reshape-to-(n,1) path), action shape
+(discrete (w,), (w,1), (w,k)), how a width-1 addition is built (batched, or unbatched + unsqueeze(0) as train_off_policy
+does for a non-vectorised environment), key order of the added TensorDict, the `dtype` constructor option, the way a
+batch is drawn (buffer.sample, Sampler(memory=..), Sampler(dataset=.., dataloader=..)), `return_idx`, and a caller that
+overwrites the batch it was handed in place (as DDPG/TD3.learn do with the actions)."""
 from __future__ import annotations
 
 import numpy as np
@@ -9,61 +16,203 @@ from tensordict import TensorDict
 from .. import codec
 from ..codec import F_ACT, F_NOBS, F_OBS, F_REW
 
+# observation kinds known to this driver: the four of the codec and two with rank-0 members
+EXTRA_KINDS = ("scalar", "dscalar")
+ALL_KINDS = tuple(codec.OBS_KINDS) + EXTRA_KINDS
+
+
+HALF = "+h"     # kind suffix: every encoded value is shifted by one half (id*64 + code + 0.5, float32-exact), so that a field
+                # that passes through an integer type on its way into or out of the buffer no longer decodes
+
+
+def split_kind(kind: str):
+    return (kind[:-len(HALF)], 0.5) if kind.endswith(HALF) else (kind, 0.0)
+
+
+def _shift(x, off):
+    if off == 0.0:
+        return x
+    if isinstance(x, dict):
+        return {k: _shift(v, off) for k, v in x.items()}
+    if isinstance(x, tuple):
+        return tuple(_shift(v, off) for v in x)
+    return np.asarray(np.asarray(x, dtype=np.float64) + off, dtype=np.float32)          # (rank-0 arrays stay arrays)
+
+
+def fval(kind: str, i: int, code: int) -> float:
+    return codec.val(i, code) + split_kind(kind)[1]
+
+
+def decode_val(kind: str, a, code: int):
+    return codec.decode_array(np.asarray(a, dtype=np.float64) - split_kind(kind)[1], code)
+
+
+def make_obs(kind: str, i: int, field: int, agent: int = 0):
+    base, off = split_kind(kind)
+    code = field + 16 * agent
+    if base == "scalar":
+        o = np.array(codec.val(i, code), dtype=np.float32)
+    elif base == "dscalar":
+        o = {"vec": np.full((2,), codec.val(i, code), dtype=np.float32), "s": np.array(codec.val(i, code + 8), dtype=np.float32)}
+    else:
+        o = codec.make_obs(base, i, field, agent)
+    return _shift(o, off)
+
+
+def stack_obs(kind: str, ids, field: int, agent: int = 0):
+    base, off = split_kind(kind)
+    if base == "scalar":
+        return np.stack([make_obs(kind, i, field, agent) for i in ids])                 # (w,)
+    if base == "dscalar":
+        obs = [make_obs(kind, i, field, agent) for i in ids]
+        return {k: np.stack([o[k] for o in obs]) for k in obs[0]}                        # vec (w,2), s (w,)
+    return _shift(codec.stack_obs(base, ids, field, agent), off)
+
+
+def _unshift(o, off):
+    if off == 0.0:
+        return o
+    if isinstance(o, (tuple, list)):
+        return tuple(_unshift(v, off) for v in o)
+    if isinstance(o, (np.ndarray, torch.Tensor, float, int, np.generic)):
+        return np.asarray(o, dtype=np.float64) - off
+    try:                                    # mapping (dict / TensorDict)
+        return {k: _unshift(o[k], off) for k in o.keys()}
+    except AttributeError:
+        return np.asarray(o, dtype=np.float64) - off
+
+
+def decode_obs(kind: str, o, field: int, agent: int = 0):
+    base, off = split_kind(kind)
+    code = field + 16 * agent
+    try:
+        o = _unshift(o, off)
+    except (TypeError, ValueError):
+        return None
+    if base == "scalar":
+        return codec.decode_array(o, code)
+    if base == "dscalar":
+        a, b = codec.decode_array(o["vec"], code), codec.decode_array(o["s"], code + 8)
+        return a if (a is not None and a == b) else None
+    return codec.decode_obs(base, o, field, agent)
+
 
 # ----------------------------------------------------------------------------- single agent
-def make_batch(kind: str, ids):
-    """A TensorDict of len(ids) transitions as train_off_policy builds them (Transition tensorclass)."""
+def _cast(x, dt):
+    if dt is None:
+        return x
+    if isinstance(x, dict):
+        return {k: _cast(v, dt) for k, v in x.items()}
+    if isinstance(x, tuple):
+        return tuple(_cast(v, dt) for v in x)
+    return np.asarray(x).astype(dt)
+
+
+def make_batch(kind: str, ids, act_dim: int = 1, unbatched: bool = False, key_order=None, obs_dtype=None):
+    """A TensorDict of len(ids) transitions as train_off_policy builds them (Transition tensorclass).
+    act_dim: 0 -> discrete actions of shape (w,), k >= 1 -> (w, k).
+    unbatched (one id only): the transition of a non-vectorised environment -- unbatched values, done = np.array([d]),
+    then unsqueeze(0), exactly as train_off_policy does.
+    obs_dtype: numpy dtype of the observation arrays (None: float32), e.g. "int64" / "float64" (plain observations keep it in
+    the storage, dict / tuple observations are converted to float32 by the Transition class)."""
     from agilerl.components.data import Transition
 
-    obs = codec.stack_obs(kind, ids, F_OBS)
-    nobs = codec.stack_obs(kind, ids, F_NOBS)
-    action = np.array([[codec.val(i, F_ACT)] for i in ids], dtype=np.float32)
-    reward = np.array([codec.val(i, F_REW) for i in ids], dtype=np.float32)
-    done = np.array([i % 2 for i in ids], dtype=np.float32)
-    t = Transition(obs=obs, action=action, reward=reward, next_obs=nobs, done=done)
+    if split_kind(kind)[1]:
+        obs_dtype = None if obs_dtype in ("int64", "int32") else obs_dtype          # half-integers need a float type
+
+    if unbatched:
+        assert len(ids) == 1
+        i = ids[0]
+        action = np.array(fval(kind, i, F_ACT), dtype=np.float32) if act_dim == 0 else np.full((act_dim,), fval(kind, i, F_ACT), dtype=np.float32)
+        t = Transition(obs=_cast(make_obs(kind, i, F_OBS), obs_dtype), action=action, reward=float(fval(kind, i, F_REW)),
+                       next_obs=_cast(make_obs(kind, i, F_NOBS), obs_dtype), done=np.array([i % 2], dtype=np.float32))
+        t = t.unsqueeze(0)
+    else:
+        obs = _cast(stack_obs(kind, ids, F_OBS), obs_dtype)
+        nobs = _cast(stack_obs(kind, ids, F_NOBS), obs_dtype)
+        if act_dim == 0:
+            action = np.array([fval(kind, i, F_ACT) for i in ids], dtype=np.float32)
+        else:
+            action = np.array([[fval(kind, i, F_ACT)] * act_dim for i in ids], dtype=np.float32)
+        reward = np.array([fval(kind, i, F_REW) for i in ids], dtype=np.float32)
+        done = np.array([i % 2 for i in ids], dtype=np.float32)
+        t = Transition(obs=obs, action=action, reward=reward, next_obs=nobs, done=done)
     t = t.to_tensordict()
     t.batch_size = [len(ids)]
+    if key_order is not None:
+        t = TensorDict({k: t[k] for k in key_order}, batch_size=[len(ids)])
     return t
 
 
-def decode_row(kind: str, row) -> int:
-    """id of one stored / sampled row, 0 if its fields do not belong together."""
-    o = codec.decode_obs(kind, row["obs"], F_OBS)
-    n = codec.decode_obs(kind, row["next_obs"], F_NOBS)
-    a = codec.decode_array(row["action"], F_ACT)
-    r = codec.decode_array(row["reward"], F_REW)
+def decode_row(kind: str, row, act_dim=None) -> int:
+    """id of one stored / sampled row, 0 if its fields do not belong together (act_dim given: or the action lost components)."""
+    o = decode_obs(kind, row["obs"], F_OBS)
+    n = decode_obs(kind, row["next_obs"], F_NOBS)
+    a = decode_val(kind, row["action"], F_ACT)
+    r = decode_val(kind, row["reward"], F_REW)
     d = np.asarray(row["done"]).reshape(-1)
     if o is None or o != n or o != a or o != r:
         return 0
     if d.size != 1 or int(d[0]) != o % 2:
         return 0
+    if act_dim is not None and np.asarray(row["action"]).size != max(1, act_dim):
+        return 0
     return o
 
 
-def decode_batch(kind, td):
+def decode_batch(kind, td, act_dim=None):
     n = td.batch_size[0] if hasattr(td, "batch_size") else len(td)
-    return [decode_row(kind, td[i]) for i in range(n)]
+    return [decode_row(kind, td[i], act_dim) for i in range(n)]
 
 
-def project_single(buf, kind, handed):
+def project_single(buf, kind, handed, act_dim=None):
     n = len(buf)
-    contents = decode_batch(kind, buf.storage[:n]) if n > 0 else []
-    handed_ok = all(decode_batch(kind, b) == ids for b, ids in handed)
-    return {"size": int(n), "contents": contents, "rows_ok": all(c > 0 for c in contents),
+    contents = decode_batch(kind, buf.storage[:n], act_dim) if n > 0 else []
+    handed_ok = all(decode_batch(kind, b, act_dim) == ids for b, ids in handed)
+    # the reported length: len(buffer), which .size and .is_full must agree with
+    coherent = (buf.size == n) and (bool(buf.is_full) == (n == buf.max_size))
+    return {"size": int(n) if coherent else -2, "contents": contents, "rows_ok": all(c > 0 for c in contents),
             "handed_ok": bool(handed_ok)}
 
 
-def run_single(N: int, kind: str, ops, use_sampler: bool = False, seed: int = 0):
-    """ops: ("add", w) | ("sample", B) | ("clear",). Returns a trace dict for Ring_Trace."""
+def _clobber(td):
+    """What a learner may do with the batch it was handed: overwrite it in place."""
+    for k in list(td.keys(True, True)):
+        v = td[k]
+        if isinstance(v, torch.Tensor):
+            v.fill_(-7)
+
+
+SAMPLER_MODES = ("direct", "sampler", "distributed")
+KEYS = ["obs", "action", "next_obs", "reward", "done"]
+
+
+def run_single(N: int, kind: str, ops, use_sampler=False, seed: int = 0, opts=None):
+    """ops: ("add", w) | ("sample", B) | ("clear",). Returns a trace dict for Ring_Trace.
+    use_sampler: False/0 buffer.sample, True/1 Sampler(memory=buffer), 2 Sampler(dataset, dataloader) (the accelerator path).
+    opts (all optional): act_dim, obs_dtype (None|"int64"|"float64"), dtype ("float32"|"float64"), vary (default True: unbatched width-1 additions, key order,
+    return_idx and in-place modification of handed batches vary along the run)."""
+    from agilerl.components.data import ReplayDataset
     from agilerl.components.replay_buffer import ReplayBuffer
     from agilerl.components.sampler import Sampler
+    from torch.utils.data import DataLoader
 
+    o = {"act_dim": 1, "dtype": "float32", "obs_dtype": None, "vary": True}
+    o.update(opts or {})
+    mode = SAMPLER_MODES[int(use_sampler)]
     torch.manual_seed(seed)
-    buf = ReplayBuffer(max_size=N)
-    sampler = Sampler(memory=buf) if use_sampler else None
+    buf = ReplayBuffer(max_size=N, dtype=getattr(torch, o["dtype"]))
+    if mode == "sampler":
+        sampler = Sampler(memory=buf)
+    elif mode == "distributed":
+        ds = ReplayDataset(buf, batch_size=1)
+        sampler = Sampler(dataset=ds, dataloader=DataLoader(ds, batch_size=None))
+    else:
+        sampler = None
     nxt = 1
     handed = []
     ev = []
+    n_add = n_sample = 0
     for op in ops:
         e = {"op": op[0], "exc": ""}
         try:
@@ -72,35 +221,81 @@ def run_single(N: int, kind: str, ops, use_sampler: bool = False, seed: int = 0)
                 e["w"] = w
                 ids = list(range(nxt, nxt + w))
                 nxt += w
-                buf.add(make_batch(kind, ids))
+                n_add += 1
+                unb = o["vary"] and w == 1 and (n_add + seed) % 2 == 0
+                ko = None
+                if o["vary"] and (n_add + seed) % 3 == 0:
+                    r = (n_add + seed) % 5
+                    ko = KEYS[r:] + KEYS[:r]
+                    if n_add % 2:
+                        ko = ko[::-1]
+                buf.add(make_batch(kind, ids, act_dim=o["act_dim"], unbatched=unb, key_order=ko, obs_dtype=o["obs_dtype"]))
             elif op[0] == "sample":
                 B = op[1]
                 e["B"] = B
                 e["ids"] = []
-                b = sampler.sample(B) if sampler else buf.sample(B)
-                ids = decode_batch(kind, b)
-                handed.append((b, ids))
+                e["idx_ok"] = True
+                n_sample += 1
+                want_idx = o["vary"] and mode != "distributed" and (n_sample + seed) % 2 == 0
+                if mode == "direct":
+                    b = buf.sample(B, True) if want_idx else buf.sample(B)
+                elif mode == "sampler":
+                    b = sampler.sample(B, return_idx=True) if want_idx else sampler.sample(B)
+                else:
+                    b = sampler.sample(B)
+                ids = decode_batch(kind, b, o["act_dim"])
                 e["ids"] = ids
+                if want_idx:
+                    # "index of samples randomly selected": row i of the batch is the row stored at position idxs[i]
+                    idxs = [int(x) for x in b["idxs"].reshape(-1).tolist()]
+                    e["idx_ok"] = bool(len(idxs) == len(ids) and all(0 <= x < len(buf) for x in idxs)
+                                       and [decode_row(kind, buf.storage[x], o["act_dim"]) for x in idxs] == ids)
+                if o["vary"] and (n_sample + seed) % 3 == 0:
+                    _clobber(b)                 # the learner overwrites its batch in place: the buffer must not notice
+                else:
+                    handed.append((b, ids))
             elif op[0] == "clear":
                 buf.clear()
             else:
                 raise ValueError(op)
-            e.update(project_single(buf, kind, handed))
+            e.update(project_single(buf, kind, handed, o["act_dim"]))
         except Exception as ex:      # the real code raised: logged, the trace ends here
             e["exc"] = f"{type(ex).__name__}: {ex}"[:200]
             e.update({"size": -1, "contents": [], "rows_ok": False, "handed_ok": False})
+            e.setdefault("idx_ok", False)
             ev.append(e)
             break
         ev.append(e)
-    return {"cfg": {"N": N, "kind": kind, "sampler": use_sampler}, "ev": ev}
+    return {"cfg": {"N": N, "kind": kind, "sampler": mode, "act_dim": o["act_dim"], "dtype": o["dtype"], "obs_dtype": str(o["obs_dtype"])}, "ev": ev}
 
 
 # ----------------------------------------------------------------------------- multi agent
-MA_FIELDS = ["obs", "action", "reward", "next_obs", "done"]
+MA_FIELDS = ["obs", "action", "reward", "next_obs", "done"]          # canonical names (positions in the sampled tuple)
+# field names the buffer is constructed with (the done-like names are cast to uint8 by the buffer)
+MA_FIELD_NAMES = (MA_FIELDS,
+                  ["state", "action", "reward", "next_state", "terminated"],
+                  ["obs", "action", "reward", "next_obs", "termination"])
+MA_AGENT_NAMES = (None, ["speaker_0", "listener_0", "adversary_1"], ["b", "a", "c"])
 
 
-def ma_experience(kind, agents, ids):
-    """Vectorised dictionaries (one per field) for environments carrying ids; ids=None -> single env."""
+def ma_kind(kind: str, k: int) -> str:
+    """Observation kind of agent k. "mixed": heterogeneous agents (vector / image / dict / scalar ...)."""
+    base, off = split_kind(kind)
+    suffix = HALF if off else ""
+    if base == "mixed":
+        return ("vector", "image", "dict", "scalar", "tuple")[k % 5] + suffix
+    if base == "mixed2":
+        return ("tuple", "scalar", "vector")[k % 3] + suffix
+    return kind
+
+
+def ma_act_dim(kind: str, k: int) -> int:
+    return 1 + (k % 2) if split_kind(kind)[0] in ("mixed", "mixed2") else 1
+
+
+def ma_experience(kind, agents, ids, py_scalars: bool = False, bool_done: bool = False):
+    """Vectorised dictionaries (one per field) for environments carrying ids; ids=None -> single env.
+    py_scalars (single env): rewards / dones are Python float / bool as a PettingZoo parallel env returns them."""
     single = not isinstance(ids, (list, tuple))
     idl = [ids] if single else list(ids)
 
@@ -126,11 +321,18 @@ def ma_experience(kind, agents, ids):
             return tuple(v[0] for v in x)
         return x[0]
 
-    obs = per_agent(lambda k: sq(codec.stack_obs(kind, idl, F_OBS, agent=k)))
-    nobs = per_agent(lambda k: sq(codec.stack_obs(kind, idl, F_NOBS, agent=k)))
-    act = per_agent(lambda k: sq(np.array([[codec.val(i, F_ACT + 16 * k)] for i in idl], dtype=np.float32)))
-    rew = per_agent(lambda k: sq(np.array([codec.val(i, F_REW + 16 * k) for i in idl], dtype=np.float32)))
-    done = per_agent(lambda k: sq(np.array([i % 2 for i in idl], dtype=np.float32)))
+    def scal(x):
+        x = sq(x)
+        if single and py_scalars:
+            return x.item()
+        return x
+
+    ddt = np.bool_ if bool_done else np.float32
+    obs = per_agent(lambda k: sq(stack_obs(ma_kind(kind, k), idl, F_OBS, agent=k)))
+    nobs = per_agent(lambda k: sq(stack_obs(ma_kind(kind, k), idl, F_NOBS, agent=k)))
+    act = per_agent(lambda k: sq(np.array([[fval(kind, i, F_ACT + 16 * k)] * ma_act_dim(kind, k) for i in idl], dtype=np.float32)))
+    rew = per_agent(lambda k: scal(np.array([fval(kind, i, F_REW + 16 * k) for i in idl], dtype=np.float32)))
+    done = per_agent(lambda k: scal(np.array([i % 2 for i in idl], dtype=ddt)))
     return obs, act, rew, nobs, done
 
 
@@ -138,12 +340,14 @@ def ma_decode_exp(kind, agents, get):
     """get(field, agent) -> unbatched value. Returns id or 0."""
     ids = set()
     for k, ag in enumerate(agents):
-        o = codec.decode_obs(kind, get("obs", ag), F_OBS, agent=k)
-        n = codec.decode_obs(kind, get("next_obs", ag), F_NOBS, agent=k)
-        a = codec.decode_array(get("action", ag), F_ACT + 16 * k)
-        r = codec.decode_array(get("reward", ag), F_REW + 16 * k)
+        o = decode_obs(ma_kind(kind, k), get("obs", ag), F_OBS, agent=k)
+        n = decode_obs(ma_kind(kind, k), get("next_obs", ag), F_NOBS, agent=k)
+        a = decode_val(kind, get("action", ag), F_ACT + 16 * k)
+        r = decode_val(kind, get("reward", ag), F_REW + 16 * k)
         d = np.asarray(get("done", ag)).reshape(-1)
         if o is None or not (o == n == a == r) or d.size != 1 or int(d[0]) != o % 2:
+            return 0
+        if np.asarray(get("action", ag)).size != ma_act_dim(kind, k):
             return 0
         ids.add(o)
     return ids.pop() if len(ids) == 1 else 0
@@ -169,32 +373,56 @@ def ma_decode_batch(kind, agents, batch, B):
         return x.detach().cpu().numpy() if isinstance(x, torch.Tensor) else np.asarray(x)
 
     fields = {f: {ag: conv(v) for ag, v in d.items()} for f, d in fields.items()}
+    if any(set(d) != set(agents) for d in fields.values()):
+        return [0] * B
     return [ma_decode_exp(kind, agents, lambda f, ag, i=i: _unb(fields[f][ag], i)) for i in range(B)]
 
 
-def project_ma(buf, kind, agents, handed):
-    contents = [ma_decode_exp(kind, agents, lambda f, ag, e=e: getattr(e, f)[ag]) for e in buf.memory]
+def _ma_clobber(x):
+    if isinstance(x, dict):
+        for v in x.values():
+            _ma_clobber(v)
+    elif isinstance(x, (tuple, list)):
+        for v in x:
+            _ma_clobber(v)
+    elif isinstance(x, torch.Tensor):
+        x.fill_(0)
+
+
+def project_ma(buf, kind, agents, handed, names=None):
+    names = names or MA_FIELDS
+    real = dict(zip(MA_FIELDS, names))
+    contents = [ma_decode_exp(kind, agents, lambda f, ag, e=e: getattr(e, real[f])[ag]) for e in buf.memory]
     handed_ok = all(ma_decode_batch(kind, agents, b, len(ids)) == ids for b, ids in handed)
     return {"size": int(len(buf)), "contents": contents, "rows_ok": all(c > 0 for c in contents),
             "handed_ok": bool(handed_ok)}
 
 
-def run_ma(N: int, kind: str, n_agents: int, ops, seed: int = 0, via_dispatch: bool = False):
+def run_ma(N: int, kind: str, n_agents: int, ops, seed: int = 0, via_dispatch: bool = False, opts=None):
+    """opts (optional): names (index into MA_FIELD_NAMES), agents (index into MA_AGENT_NAMES), device (None | "cpu"),
+    sampler (draw through Sampler(memory=buffer)), py_scalars, bool_done, vary (default True: extra positional argument
+    of sample() and in-place modification of handed batches vary along the run)."""
     import random
 
     from agilerl.components.multi_agent_replay_buffer import MultiAgentReplayBuffer
+    from agilerl.components.sampler import Sampler
 
+    o = {"names": 0, "agents": 0, "device": None, "sampler": False, "py_scalars": False, "bool_done": False, "vary": True}
+    o.update(opts or {})
     random.seed(seed)
-    agents = [f"agent_{k}" for k in range(n_agents)]
-    buf = MultiAgentReplayBuffer(N, field_names=MA_FIELDS, agent_ids=agents)
+    agents = [f"agent_{k}" for k in range(n_agents)] if not o["agents"] else list(MA_AGENT_NAMES[o["agents"]][:n_agents])
+    names = list(MA_FIELD_NAMES[o["names"]])
+    buf = MultiAgentReplayBuffer(N, field_names=names, agent_ids=agents, device=o["device"])
+    sampler = Sampler(memory=buf) if o["sampler"] else None
     nxt = 1
     handed = []
     ev = []
+    n_sample = 0
     for op in ops:
         e = {"op": op[0], "exc": ""}
         try:
             if op[0] == "save1":
-                args = ma_experience(kind, agents, nxt)
+                args = ma_experience(kind, agents, nxt, py_scalars=o["py_scalars"], bool_done=o["bool_done"])
                 nxt += 1
                 if via_dispatch:
                     buf.save_to_memory(*args, is_vectorised=False)
@@ -203,7 +431,7 @@ def run_ma(N: int, kind: str, n_agents: int, ops, seed: int = 0, via_dispatch: b
             elif op[0] == "savev":
                 w = op[1]
                 e["w"] = w
-                args = ma_experience(kind, agents, list(range(nxt, nxt + w)))
+                args = ma_experience(kind, agents, list(range(nxt, nxt + w)), bool_done=o["bool_done"])
                 nxt += w
                 if via_dispatch:
                     buf.save_to_memory(*args, is_vectorised=True)
@@ -213,17 +441,26 @@ def run_ma(N: int, kind: str, n_agents: int, ops, seed: int = 0, via_dispatch: b
                 B = op[1]
                 e["B"] = B
                 e["ids"] = []
-                b = buf.sample(B)
+                n_sample += 1
+                extra = o["vary"] and (n_sample + seed) % 2 == 0
+                if sampler is not None:
+                    b = sampler.sample(B, return_idx=True) if extra else sampler.sample(B)
+                else:
+                    b = buf.sample(B, False) if extra else buf.sample(B)
                 ids = ma_decode_batch(kind, agents, b, B)
-                handed.append((b, ids))
                 e["ids"] = ids
+                if o["vary"] and (n_sample + seed) % 3 == 0:
+                    _ma_clobber(b)
+                else:
+                    handed.append((b, ids))
             else:
                 raise ValueError(op)
-            e.update(project_ma(buf, kind, agents, handed))
+            e.update(project_ma(buf, kind, agents, handed, names))
         except Exception as ex:
             e["exc"] = f"{type(ex).__name__}: {ex}"[:200]
             e.update({"size": -1, "contents": [], "rows_ok": False, "handed_ok": False})
             ev.append(e)
             break
         ev.append(e)
-    return {"cfg": {"N": N, "kind": kind, "agents": n_agents}, "ev": ev}
+    return {"cfg": {"N": N, "kind": kind, "agents": n_agents, "names": o["names"], "agent_names": o["agents"], "device": str(o["device"]),
+                    "sampler": bool(o["sampler"]), "py_scalars": bool(o["py_scalars"]), "bool_done": bool(o["bool_done"])}, "ev": ev}
